@@ -16,7 +16,9 @@ RULE = ("cases = small-domain flat programs with 1-3 hard and 1-5 soft statement
         "violated soft could be added to the satisfied ones within S_hard, (4) priority: the result lies in the greedy-by-"
         "priority set for some order consistent with 'later in the same block wins, inline over class'.  non-trivial = the "
         "full soft set is jointly unsatisfiable with the hard set and at least two softs conflict; distinct = distinct "
-        "canonical program+calls")
+        "canonical program+calls.  A list family (about 5% of the cases) puts the softs into the body of a foreach over a "
+        "random-size list: (size, elements, x) are enumerated and the soft of element i applies only if the solved list has "
+        "an element i; same four oracles")
 ASSUMPTIONS = [
     "a soft nested under conditions is the soft (AND guards) -> expr; guards of else-branches are the negated earlier conditions",
     "the order between softs of different class blocks is not fixed by the property: any interleaving preserving each block's order is accepted, inline softs last (highest priority)",
